@@ -32,7 +32,7 @@ ASSUMPTIONS = {
             'rounding bound: E_k <= (1+1e-6) + (|dom S_j|/|dom pi_k|) E_j along the generation order (DESIGN.md Engine E); zero cells = cells where an input potential is -inf'],
 }
 TIERS = {
-    'C11': {'quick': dict(runs=2400, budget_s=150, hashseeds=4, minimise_s=60),
+    'C11': {'quick': dict(runs=7200, budget_s=400, hashseeds=4, minimise_s=60),
             'thorough': dict(runs=None, budget_s=600, hashseeds=16, minimise_s=240)},
 }
 RUN_LIMIT_S = {'C11': 120}
